@@ -330,6 +330,7 @@ func Link(
 
 	c.computeChunks()
 	c.computeCrossChunkDependencies()
+	verifLinkDone(&c)
 
 	// Merge mangled properties before chunks are generated since the names must
 	// be consistent across all chunks, or the generated code will break
